@@ -22,7 +22,11 @@ RULE = ('case = (value tree over built-ins and pretty_call objects with comment(
         'case hash')
 ASSUMPTIONS = ['tokenize COMMENT tokens delimit what is "inside a # comment"; ast.dump equality is "same syntax tree"',
                'trailing comments on nodes whose printer does not take them are dropped with the documented warning',
-               'cases in which stripping the wrappers merges dict keys / set elements are skipped (value changes)']
+               'cases in which stripping the wrappers merges dict keys / set elements are skipped (value changes)',
+               'comment objects stored as field values of dataclass / attrs instances are not generated: a commented field '
+               'that equals its default is shown with its comment (the wrapper differs from the default), so the two clauses '
+               'of the statement - same syntax tree, every comment word shown - cannot both hold there; the output still '
+               'evaluates to an equal instance']
 BUDGET = {'quick': {'random': 8000, 'shards': 16}, 'thorough': {'random': 300000, 'shards': 16}}
 FUZZ = {'runs': 30000}   # thorough tier: 16 atheris campaigns of this many executions over the same strategy and oracle
 
